@@ -783,6 +783,15 @@ func (e *Engine) verifyFunction(fn *ssa.Function, con *Contract) (q *Query, fc *
 				q.assume(t)
 			}
 			fc.ifaceCons = append(fc.ifaceCons, ic)
+			// the interface's frame binds the implementation unless it declares a tighter one
+			if !fc.con.HasAssigns && ic.HasAssigns {
+				cc := *fc.con
+				cc.HasAssigns = true
+				cc.Assigns = ic.Assigns
+				cc.AssignsSrc = ic.AssignsSrc
+				fc.con = &cc
+				con = &cc
+			}
 		}
 		// vacuity guard: the precondition (with the axioms) must be satisfiable
 		o := &Obligation{Fn: fc.fnName, Name: "cover/pre", Kind: "cover", Guard: "true", Goal: "false", Desc: "precondition satisfiable", Cover: true, n: len(q.items), Pos: fc.posOfFn()}
@@ -1379,6 +1388,28 @@ func (fc *FuncCtx) finish() {
 	}
 	fc.curInstr = nil
 	extra := fc.resultNames(con, res)
+	// named local variables whose address is taken (cells): readable in the exit state
+	seenName := map[string]int{}
+	for _, b := range fc.fn.Blocks {
+		for _, in := range b.Instrs {
+			if al, ok := in.(*ssa.Alloc); ok && al.Comment != "" {
+				seenName[al.Comment]++
+			}
+		}
+	}
+	for _, b := range fc.fn.Blocks {
+		for _, in := range b.Instrs {
+			if al, ok := in.(*ssa.Alloc); ok && al.Comment != "" && seenName[al.Comment] == 1 {
+				if tv, ok := fc.val[al]; ok && tv.L != nil {
+					if _, clash := extra[al.Comment]; !clash {
+						if _, isParam := fc.paramTV[al.Comment]; !isParam {
+							extra[al.Comment] = TV{L: tv.L, G: tv.L.gt}
+						}
+					}
+				}
+			}
+		}
+	}
 	env := fc.envFor(st, extra)
 	for i, c := range con.UnfoldPost {
 		var t string
